@@ -336,7 +336,18 @@ func genRect(rng *rand.Rand, w int) lpoly {
 		top := y1 - d - 2 - rng.Intn(4)
 		bot := y0 + 2 + rng.Intn(4)
 		if top-bot >= 2 && hb-ha >= 2 && ha > x0 && hb < x1 {
-			p = append(p, [][2]int{{ha, bot}, {ha, top}, {hb, top}, {hb, bot}})
+			hole := [][2]int{{ha, bot}, {ha, top}, {hb, top}, {hb, bot}}
+			if rng.Intn(3) == 0 && top-bot >= 6 && hb-ha >= 4 {
+				// C-shaped hole: a slot of one lattice unit cut in from the right, its two tips fall into one pixel
+				mid := (bot+top)/2/4*4 + 1
+				if mid <= bot+1 || mid+1 >= top {
+					mid = (bot + top) / 2
+				}
+				hole = [][2]int{{ha, bot}, {ha, top}, {hb, top}, {hb, mid + 1}, {ha + 2, mid + 1}, {ha + 2, mid}, {hb, mid}, {hb, bot}}
+				rot := rng.Intn(len(hole))
+				hole = append(hole[rot:], hole[:rot]...)
+			}
+			p = append(p, hole)
 		}
 	}
 	switch rng.Intn(4) { // rotate by multiples of 90 degrees
